@@ -2,6 +2,8 @@
 package c11
 
 import (
+	"github.com/golang/glog"
+
 	"encoding/binary"
 	"fmt"
 	"math/rand"
@@ -37,7 +39,7 @@ func TestCheck(t *testing.T) {
 		t.Skip("child process")
 	}
 	run := ev.Start(t, "C11", "exploration")
-	nRuns := run.Pick(30, 500)
+	nRuns := run.Pick(60, 500)
 	nChild := (nRuns + runsPerChild - 1) / runsPerChild
 	// the race detector multiplies CPU cost: few children at a time, each saturating cores
 	ev.Parallel(nChild, 3, func(b int) {
@@ -157,6 +159,9 @@ func TestChild(t *testing.T) {
 	}
 	defer wr.Close()
 	drv.Watchdog = 45 * time.Second
+	// logging calls are points at which the real code can be held up (format, global
+	// mutex, write): the silent stand-in gives that timing back without the mutex
+	glog.SetStall(func() { time.Sleep(30 * time.Microsecond) })
 	var b int
 	fmt.Sscanf(sp.Arg, "%d", &b)
 	for k := 0; k < runsPerChild; k++ {
